@@ -175,10 +175,10 @@ func pbToTransaction(t *middleware_pb.Transaction) Transaction {
 		sign = common.BytesToSign(t.Sign)
 	}
 
-	transaction := Transaction{Data: data, Nonce: *t.Nonce, RequestId: *t.RequestId, Source: source,
+	transaction := Transaction{Data: data, Nonce: t.GetNonce(), RequestId: t.GetRequestId(), Source: source,
 		Target: target, Hash: common.BytesToHash(t.Hash),
-		ExtraData: string(t.ExtraData), ExtraDataType: *t.ExtraDataType, Type: *t.Type, Sign: sign,
-		Time: *t.Time, SocketRequestId: socketRequestId, SubTransactions: subTransactions, SubHash: common.BytesToHash(t.SubHash), ChainId: *t.ChainId}
+		ExtraData: string(t.ExtraData), ExtraDataType: t.GetExtraDataType(), Type: t.GetType(), Sign: sign,
+		Time: t.GetTime(), SocketRequestId: socketRequestId, SubTransactions: subTransactions, SubHash: common.BytesToHash(t.SubHash), ChainId: t.GetChainId()}
 
 	return transaction
 }
@@ -205,8 +205,8 @@ func PbToBlockHeader(h *middleware_pb.BlockHeader) *BlockHeader {
 	if hashBytes != nil {
 		for _, hashByte := range hashBytes {
 			hash := common.Hashes{}
-			hash[0] = common.BytesToHash(hashByte.Hash)
-			hash[1] = common.BytesToHash(hashByte.SubHash)
+			hash[0] = common.BytesToHash(hashByte.GetHash())
+			hash[1] = common.BytesToHash(hashByte.GetSubHash())
 			hashes = append(hashes, hash)
 
 		}
@@ -245,10 +245,10 @@ func PbToBlockHeader(h *middleware_pb.BlockHeader) *BlockHeader {
 		proveValue = nil
 	}
 	//log.Printf("PbToBlockHeader height:%d StateTree Hash:%s",*h.Height,common.Bytes2Hex(h.StateTree))
-	header := BlockHeader{Hash: common.BytesToHash(h.Hash), Height: *h.Height, PreHash: common.BytesToHash(h.PreHash), PreTime: preTime,
+	header := BlockHeader{Hash: common.BytesToHash(h.Hash), Height: h.GetHeight(), PreHash: common.BytesToHash(h.PreHash), PreTime: preTime,
 		ProveValue: proveValue, CurTime: curTime, Castor: h.Castor, GroupId: h.GroupId, Signature: h.Signature,
-		Nonce: *h.Nonce, Transactions: hashes, TxTree: common.BytesToHash(h.TxTree), ReceiptTree: common.BytesToHash(h.ReceiptTree), StateTree: common.BytesToHash(h.StateTree),
-		ExtraData: h.ExtraData, TotalQN: *h.TotalQN, Random: h.Random, EvictedTxs: hashes2}
+		Nonce: h.GetNonce(), Transactions: hashes, TxTree: common.BytesToHash(h.TxTree), ReceiptTree: common.BytesToHash(h.ReceiptTree), StateTree: common.BytesToHash(h.StateTree),
+		ExtraData: h.ExtraData, TotalQN: h.GetTotalQN(), Random: h.Random, EvictedTxs: hashes2}
 
 	if nil != h.RequestIds {
 		json.Unmarshal(h.RequestIds, &header.RequestIds)
@@ -271,6 +271,9 @@ func PbToBlock(b *middleware_pb.Block) *Block {
 }
 
 func PbToGroupHeader(g *middleware_pb.GroupHeader) *GroupHeader {
+	if g == nil {
+		return nil
+	}
 	var beginTime time.Time
 	beginTime.UnmarshalBinary(g.BeginTime)
 	header := GroupHeader{
@@ -279,8 +282,8 @@ func PbToGroupHeader(g *middleware_pb.GroupHeader) *GroupHeader {
 		PreGroup:        g.PreGroup,
 		BeginTime:       beginTime,
 		MemberRoot:      common.BytesToHash(g.MemberRoot),
-		CreateHeight:    *g.CreateHeight,
-		Extends:         *g.Extends,
+		CreateHeight:    g.GetCreateHeight(),
+		Extends:         g.GetExtends(),
 		CreateBlockHash: g.CreateBlockHash,
 	}
 	return &header
@@ -296,21 +299,21 @@ func PbToGroup(g *middleware_pb.Group) *Group {
 		Members:     g.Members,
 		PubKey:      g.PubKey,
 		Signature:   g.Signature,
-		GroupHeight: *g.GroupHeight,
+		GroupHeight: g.GetGroupHeight(),
 	}
 	return &group
 }
 
 func PbToGroups(g *middleware_pb.GroupSlice) []*Group {
 	result := make([]*Group, 0)
-	for _, group := range g.Groups {
+	for _, group := range g.GetGroups() {
 		result = append(result, PbToGroup(group))
 	}
 	return result
 }
 
 func pbToMember(m *middleware_pb.Member) *Member {
-	member := Member{Id: m.Id, PubKey: m.PubKey}
+	member := Member{Id: m.GetId(), PubKey: m.GetPubKey()}
 	return &member
 }
 
